@@ -301,7 +301,8 @@ def run(chk):
                        "distinct recorded histories (sequence of SB/SE/B/BE events per target) containing at least one reload")
     chk.assumptions += [
         "quiescence is declared after %d consecutive harness timers, each 1.25 x the longer interval (%d us), without any "
-        "logged event; Delivered/RetryWithoutSubmit/NoBlockForever are evaluated only there and become a violation only "
+        "logged event (and with every dispatched submission begun and no debouncer goroutine runnable inside the session "
+        "manager's reload action); Delivered/RetryWithoutSubmit/NoBlockForever are evaluated only there and become a violation only "
         "if they fail again with %d such timers; no other timing enters the verdict" % (BEATS[chk.tier], RETRY_US, BEATS_CONFIRM),
         "a re-apply request that is never served is reported as drift, not as a violation (the statement demands the "
         "latest configuration to be applied, retries after failures, no blocking; it does not demand a reload per re-apply)",
